@@ -392,6 +392,41 @@ static void case_c03(vrng *r, uint64_t caseno)
     ctx_close(&c);
 }
 
+/* in-place extraction: the writer's destination starts below the container inside the same memory the parser reads
+ * (dst < src < dst+len); to_writer must still append exactly the container's bytes (the writer copies with memmove) */
+static void inplace_case(vrng *r)
+{
+    vgen g; vg_default(&g, K_OBJ);
+    g.max_nodes = 6 + (int)vrn(r, 30); g.container_permille = 500; g.hostile_names = 0; g.big_permille = 100;
+    vnode *root = vt_gen(r, &g);
+    vnode *target = NULL; uint32_t ti = 0;
+    for (uint32_t i = 0; i < root->nkids; i++) if (root->kids[i]->kind == K_OBJ || root->kids[i]->kind == K_ARR) { target = root->kids[i]; ti = i; if (vrn(r, 2)) break; }
+    if (!target) return;
+    vbuf d; memset(&d, 0, sizeof d);
+    vt_encode(root, &d);
+    size_t K = vrn(r, 24);
+    uint8_t *arena = (uint8_t *)malloc(K + d.n + 8);
+    memcpy(arena + K, d.p, d.n);
+    binson_state st[16]; binson_parser p; memset(&p, 0, sizeof p); memset(st, 0, sizeof st);
+    int need = obj_levels(root, 0); if (need > 16) { free(arena); vb_free(&d); return; }
+    p.state = st; p.max_depth = (uint_fast8_t)need;
+    bool ok = binson_parser_init_object(&p, arena + K, d.n) && binson_parser_go_into_object(&p);
+    for (uint32_t i = 0; ok && i <= ti; i++) ok = binson_parser_next(&p);
+    if (ok) {
+        uint8_t *snap = (uint8_t *)malloc(target->len);
+        memcpy(snap, arena + K + target->off, target->len);
+        binson_writer w; binson_writer_init(&w, arena, K + target->off + target->len);
+        bool tw = binson_parser_to_writer(&p, &w);
+        if (!tw || binson_writer_get_counter(&w) != target->len || memcmp(arena, snap, target->len) != 0) {
+            char what[300]; snprintf(what, sizeof what, "in-place to_writer of a %u-byte container whose bytes start %zu bytes above the writer's destination in the same memory: ret=%d counter=%zu, output differs from the container's bytes", target->len, K + target->off, tw, binson_writer_get_counter(&w));
+            vw_violation("walk:towriter:in-place", "%s", what);
+        }
+        vw_count("to_writer_in_place", 1);
+        free(snap);
+    }
+    free(arena); vb_free(&d);
+}
+
 /* -------------------------------------------------------------- random walks -- */
 static void pick_name(wctx *c, vrng *r, const uint8_t **np, size_t *nl)
 {
@@ -767,7 +802,7 @@ int main(int argc, char **argv)
         else if (!strcmp(m, "c10")) case_c10(&r, k * VA.nworkers + VA.wid);
         else if (!strcmp(m, "c06r")) case_walk(&r, k, '6');
         else if (!strcmp(m, "c07r")) case_walk(&r, k, '7');
-        else if (!strcmp(m, "c11r")) case_walk(&r, k, 'b');
+        else if (!strcmp(m, "c11r")) { if (k % 16 == 5) inplace_case(&r); else case_walk(&r, k, 'b'); }
         else { fprintf(stderr, "HARNESS: unknown mode %s\n", m); return 2; }
     }
     return vw_finish();
